@@ -245,6 +245,10 @@ fn check_extras(st: &mut Stats, line: &Value, conc: &Concretisation, ont: &Ontol
         match catch(|| ta.path_to_term(&tb)) {
             Ok(Some(path)) => {
                 let path: Vec<u32> = path.iter().map(|x| x.as_u32()).collect();
+                if a != b && dist >= 0 && path.len() as i64 > dist {
+                    // documented as "the shortest path": informational, see TermPathsLineage in HpoSetOps
+                    st.bump("path_to_term_longer_than_distance", 1);
+                }
                 if !allowed.contains(&path) {
                     d.push(format!("path_to_term({a},{b}) = {:?}, allowed {:?}", path, allowed));
                 }
